@@ -260,7 +260,7 @@ func TestC08_Rapid(t *testing.T) {
 		"with the same Type/TransactionID fields given the same use; success/failure agrees with the twin; earlier MarshalBinary and CloneTo results are unaffected by later changes. "+
 		"Non-trivial = a use that is smaller than the previous one and holds a value with len%4 != 0, or has fewer attributes, or switches between decoding and building; distinct by (use kinds, sizes).")
 	rec.Note("assumptions", []string{"Message.Decode() in place (no copy by design) is not a 'copying' entry point and is excluded"})
-	pbt.Check(t, rec, "history", evid.Pick(6000, 150000), func(rt *rapid.T) (any, error) {
+	pbt.Check(t, rec, "history", evid.Pick(20000, 200000), func(rt *rapid.T) (any, error) {
 		c := c08Case{Poison: rapid.SampledFrom([]byte{0xA5, 0xFF, 0x01, 0x80}).Draw(rt, "poison")}
 		c.Uses = rapid.SliceOfN(rapid.Custom(genUse), 2, 8).Draw(rt, "uses")
 		nt, err := runC08(c)
